@@ -35,6 +35,21 @@ package absnfs
 //@ callassert connIO.WriteReply : [answers-a-pending-call] ioReplies - old(ioReplies) < ioCalls - old(ioCalls)
 // the refusal of a rate-limited call (first WriteReply of the loop) carries that call's header: XID echo
 //@ callassert connIO.WriteReply#1 : [refusal-echoes-the-call] arg1 != nil && arg1.Header == call.Header && arg1.Status == 1
+// the loop never goes round again after a call could not be read: an undecodable stream ends the loop (and the
+// deferred Close below closes the connection)
+//@ loop 1 backedge [no-iteration-after-read-error] after readErr : isnil(readErr)
 // however the loop ends (undecodable stream, read or write error, shutdown), the connection is closed
 //@ ensures [connection-closed-on-exit] connClosed[valof(conn)]
 //@ ensures [never-more-replies-than-calls] ioReplies - old(ioReplies) <= ioCalls - old(ioCalls)
+
+// ---- argument decoding of the handlers (C15): no panic and no allocation for any byte stream
+//@ func decodeSattr3
+//@ prop C15
+//@ allocbound 0
+//@ modifies rpos
+//@ ensures [stream-only-advances] rpos[valof(body)] >= old(rpos[valof(body)]) && forall(o, mathint, o != valof(body) ==> rpos[o] == old(rpos[o]))
+
+// WRITE allocates its payload buffer only after the count passed the size check: at most one transfer size
+// (1 MiB when none is configured, never more than 4 GiB - 1)
+//@ also NFSProcedureHandler.handleWrite
+//@ callassert io.ReadFull#1 : [payload-buffer-bounded] {C15} len(arg1) == count && count <= ite(curTuning(h.server.handler).TransferSize <= 0, 1048576, min(curTuning(h.server.handler).TransferSize, 4294967295))
